@@ -21,6 +21,13 @@ def stepSlowRefresh (toks : List String) : Option String :=
       let b := toHexOrDash (n ++ [46])
       some s!"A={a} B={b} C={b}"
     | _, _, _ => some "bad-op"
+  | ["slowhosts", name, _ip] =>
+    -- the load of the hosts file and the lookups are serialised by the source's lock: both the query
+    -- that started the load and the one that arrived meanwhile find the listed name (NV.C12
+    -- `hosts_hit_no_upstream`, names matched case-insensitively)
+    match ofHex name with
+    | some n => if n.isEmpty then some "bad-op" else some "A=L B=L"
+    | none => some "bad-op"
   | _ => none
 
 end NV
